@@ -441,222 +441,16 @@ def char_of(pc_entry):
 
 
 def check_tokenizer(prog, rep):
+    import tokrules as TR
     tk = prog.lib_fn(TOK + "try_tokenize_recursive")
-    cv = prog.lib_fn(TOK + "collect_var_and_dom_from_operator")
-    if tk is None or cv is None:
-        rep.unresolved("C05-R3", "tokenizer", "", "tokenizer functions not found")
-        return
-    eng = terms.Engine(prog, inline=False)
-    s = eng.summary(tk)
-    rep.functions.add(tk.qual)
-    rep.functions.add(cv.qual)
-    pn = tk.param_names()
-    flag = ("param", pn[2])
-    # R3 ------------------------------------------------------------------------------------------
-    wcs = [x for x in s.sites if x.kind == "ctor" and str(x.callee).endswith("Atomic::WildCardProp")]
-    if not wcs:
-        rep.unresolved("C05-R3", "tokenizer/WildCardProp", f"{tk.file}:{tk.line}", "no WildCardProp construction found")
-    for x in wcs:
-        dep = any(c[0] == "if" and c[2] and c[1] == flag for c in x.pc)
-        rep.check(dep, "C05-R3", f"tokenizer/WildCardProp@{x.ordinal}", x.where(), "wild-card token only when the mode flag is set",
-                  "a wild-card proposition token can be produced although parse_wild_cards is false (the plain parser must reject `%p%`)")
-    cs = eng.summary(cv)
-    cpn = cv.param_names()
-    dflag = ("param", cpn[2])
-    doms = [x for x in cs.sites if (x.kind == "assign" and x.args and x.args[0][0] == "ctor" and str(x.args[0][1]).endswith("Some"))
-            or (x.kind == "ctor" and str(x.callee).endswith("Some") and "String" in str(x.ty) and False)]
-    if not doms:
-        rep.unresolved("C05-R3", "collect_var/domain", f"{cv.file}:{cv.line}", "no `domain = Some(..)` found")
-    for x in doms:
-        dep = any(c[0] == "if" and c[2] and c[1] == dflag for c in x.pc)
-        rep.check(dep, "C05-R3", f"collect_var/domain@{x.ordinal}", x.where(), "a domain is only read when domains are allowed",
-                  "a domain can be attached although parse_domains is false (the plain parser must reject `in %d%`)")
-    rets_cv = [r for r in cs.returns if r[5] != "try"]
-    calls = [x for x in s.sites if x.kind == "call" and x.is_call_to("collect_var_and_dom_from_operator")]
-    for x in calls:
-        opch = x.args[1][1] if x.args[1][0] == "lit" else None
-        want = ("lit", False) if opch == "@" else flag
-        rep.check(x.args[2] == want, "C05-R3", f"tokenizer/mode-arg:{opch}@{x.ordinal}", x.where(),
-                  f"operator `{opch}` passes {'false' if opch == '@' else 'the mode flag'} as domain permission",
-                  f"operator `{opch}` passes {sem.short(x.args[2], 40)} as domain permission")
-    recs = [x for x in s.sites if x.kind == "call" and x.is_call_to("try_tokenize_recursive")]
-    for x in recs:
-        rep.check(x.args[2] == flag and x.args[1] == ("lit", False), "C05-R3", f"tokenizer/recursion@{x.ordinal}", x.where(),
-                  "nested group: same mode, not top level", f"recursive call passes ({sem.short(x.args[1], 30)}, {sem.short(x.args[2], 30)})")
-    for name, val in (("try_tokenize_formula", False), ("try_tokenize_extended_formula", True)):
-        f = prog.lib_fn(TOK + name)
-        if f is None:
-            rep.unresolved("C05-R3", name, "", "entry not found")
-            continue
-        fs = eng.summary(f)
-        cc = [x for x in fs.sites if x.kind == "call" and x.is_call_to("try_tokenize_recursive")]
-        rep.check(len(cc) == 1 and cc[0].args[2] == ("lit", val) and cc[0].args[1] == ("lit", True), "C05-R3", name, f"{f.file}:{f.line}",
-                  f"{name} tokenizes with top_level = true, parse_wild_cards = {str(val).lower()}",
-                  f"{name} calls the tokenizer with {[sem.short(a, 30) for a in cc[0].args[1:]] if cc else None}")
-    # the flag reaches nothing else
-    uses = [x for x in s.sites if any(a == flag for a in (x.args or [])) and x.kind in ("call", "mcall")]
-    other = [x for x in uses if not x.is_call_to("collect_var_and_dom_from_operator", "try_tokenize_recursive")]
-    rep.check(not other, "C05-R3", "tokenizer/flag-uses", f"{tk.file}:{tk.line}", "the mode flag only reaches the domain permission and the recursion",
-              f"the mode flag also flows into `{other[0].short()}` at line {other[0].line()}" if other else "")
-    rep.floor("C05-R3", 12)
-    # R4 ------------------------------------------------------------------------------------------
-    # arms of the character match: recover (first char, guard) from the path conditions of the token constructions
-    arms = {}
-    main_match = None
-    for n in hir.walk(tk.body):
-        if n.get("k") == "match" and str(n["e"].get("ty")) == "char" and len(n["arms"]) > 10:
-            main_match = n
-    if main_match is None:
-        rep.unresolved("C05-R4", "tokenizer/char-match", f"{tk.file}:{tk.line}", "character match not found")
-        return
-    name_arm_index = None
-    ws_index = None
-    for i, arm in enumerate(main_match["arms"]):
-        p = arm["pat"]
-        g = arm.get("guard")
-        if p.get("k") == "bind" and g is not None:
-            gcalls = [x for x in hir.walk(g) if x.get("k") in ("call", "mcall")]
-            names = [x.get("name") or str(x.get("def", "")).rsplit("::", 1)[-1] for x in gcalls]
-            if "is_whitespace" in names and ws_index is None:
-                ws_index = i
-            if "is_valid_in_name" in names and name_arm_index is None:
-                name_arm_index = i
-    rep.check(ws_index == 0, "C05-R5", "tokenizer/whitespace-first", f"{tk.file}:{main_match['sp'][0]}", "the whitespace arm is the first arm",
-              f"whitespace arm is arm #{ws_index}: an earlier arm can capture a whitespace character")
-    ieng = terms.Engine(prog, inline=True, hooks=E.Hooks([TOK]))
-    arm_chars = []
-    for i, arm in enumerate(main_match["arms"]):
-        p = arm["pat"]
-        alts = p["subs"] if p.get("k") == "por" else [p]
-        for q in alts:
-            if q.get("k") == "plit" and q.get("lk") == "char" and (q["v"].isalnum() or q["v"] == "_"):
-                arm_chars.append((i, arm, q["v"]))
-    for i, arm, ch in arm_chars:
-        g = arm.get("guard")
-        where = f"{tk.file}:{arm['ln']}"
-        if g is None:
-            rep.violation("C05-R4", f"arm:{ch}/guard", where, f"the arm for `{ch}` has no look-ahead guard: every identifier starting with `{ch}` is mis-tokenised")
-            continue
-        looks = [x for x in hir.walk(g) if (x.get("k") == "mcall" and x.get("name") == "peek") or
-                 (x.get("k") == "call" and any(a.get("k") == "path" and a.get("name") == pn[0] for a in x.get("args", [])))]
-        rep.check(bool(looks) and (name_arm_index is None or i < name_arm_index), "C05-R4", f"arm:{ch}/guard", where,
-                  f"arm `{ch}` is guarded by a look-ahead and precedes the generic name arm",
-                  f"guard of arm `{ch}` does not inspect the look-ahead, or the generic name arm comes first")
-        # (b) abstract evaluation of the guard on the look-ahead classes
-        check_guard_classes(prog, rep, ieng, tk, ch, g, where)
-    rep.floor("C05-R4", 8)
-    # (c) one name-character predicate
-    vin = prog.lib_fn(TOK + "is_valid_in_name")
-    if vin is None:
-        rep.unresolved("C05-R4", "is_valid_in_name", "", "predicate not found")
-    else:
-        ok = True
-        for c in ("a", "Z", "5", "_", "é"):
-            v = fold.eval_fn(ieng, vin, [("lit", c)])
-            ok = ok and v == partial.TRUE
-        for c in (" ", "{", "%", "&", "-", ":"):
-            v = fold.eval_fn(ieng, vin, [("lit", c)])
-            ok = ok and v == partial.FALSE
-        rep.check(ok, "C05-R4", "is_valid_in_name/definition", f"{vin.file}:{vin.line}", "name character = alphanumeric or '_'",
-                  "is_valid_in_name does not hold exactly for alphanumeric characters and '_'")
-        for f in prog.lib_fns():
-            if not f.path.startswith(TOK) or f is vin:
-                continue
-            fs = eng.summary(f)
-            for x in fs.sites:
-                if x.kind in ("call", "mcall") and isinstance(x.callee, str) and x.callee.rsplit("::", 1)[-1] in ("is_alphanumeric", "is_alphabetic", "is_ascii_alphanumeric"):
-                    rep.violation("C05-R4", f"{f.name}/direct-char-test@{x.ordinal}", x.where(),
-                                  f"{f.name} decides name membership with `{x.short()}` directly instead of is_valid_in_name: identifiers containing `_` are split differently here")
-    # R5: whitespace skipping in collect_var_and_dom_from_operator: before `{`, before in/`:`, before `%`, before `:`
-    skips = [x for x in cs.sites if x.kind == "call" and x.is_call_to("skip_whitespaces")]
-    nexts = [x for x in cs.sites if x.kind == "mcall" and x.name in ("next", "peek")]
-    rep.check(len(skips) >= 4, "C05-R5", "collect_var/skip-count", f"{cv.file}:{cv.line}", f"{len(skips)} whitespace skips (before each segment)",
-              f"only {len(skips)} skip_whitespaces calls: whitespace before one of the segments `{{`, `in`/`:`, `%`, `:` is not accepted")
-    first_read = min([x.line() for x in nexts] or [0])
-    first_skip = min([x.line() for x in skips] or [10 ** 9])
-    rep.check(first_skip < first_read, "C05-R5", "collect_var/skip-first", f"{cv.file}:{cv.line}", "whitespace is skipped before the first segment",
-              "the variable segment is read before whitespace is skipped")
-    sk = prog.lib_fn(TOK + "skip_whitespaces")
-    if sk is not None:
-        ss = eng.summary(sk)
-        adv = [x for x in ss.sites if x.kind == "mcall" and x.name == "next"]
-        good = bool(adv) and all(any(c[0] == "if" and c[2] and c[1][0] == "call" and c[1][1].endswith("is_whitespace") for c in x.pc) for x in adv)
-        rep.check(good, "C05-R5", "skip_whitespaces/only-whitespace", f"{sk.file}:{sk.line}", "only whitespace characters are consumed",
-                  "skip_whitespaces can consume a non-whitespace character")
-    rep.floor("C05-R5", 4)
-
-
-LOOKAHEAD_CLASSES = [("name", "a"), ("underscore", "_"), ("digit", "7"), ("whitespace", " "), ("brace", "{"), ("tempX", "X"), ("tempF", "F"),
-                     ("tempG", "G"), ("tempU", "U"), ("tempW", "W"), ("punct", "&"), ("paren", ")"), ("eof", None)]
-
-
-def check_guard_classes(prog, rep, ieng, tk, ch, g, where):
-    """Evaluate the arm guard for every look-ahead class."""
-    # the guard is `helper(input_chars.peek())` or `helper(input_chars)`
-    call = None
-    for x in hir.walk(g):
-        if x.get("k") == "call" and x.get("def"):
-            call = x
-            break
-    if call is None:
-        rep.unresolved("C05-R4", f"arm:{ch}/classes", where, "guard is not a call of a look-ahead helper")
-        return
-    helper = prog.resolve_local(tk.crate, call["def"])
-    negated = False
-    gg = g
-    while gg.get("k") == "un" and gg.get("op") == "!":
-        negated = not negated
-        gg = gg["e"]
-    if helper is None:
-        rep.unresolved("C05-R4", f"arm:{ch}/classes", where, "look-ahead helper is not a local function")
-        return
-    takes_peek = any(a.get("k") == "mcall" and a.get("name") == "peek" for a in call.get("args", []))
-    if takes_peek:
-        res = {}
-        for cname, c in LOOKAHEAD_CLASSES:
-            arg = ("ctor", E.NONE, ()) if c is None else ("ctor", E.SOME, (("lit", c),))
-            v = fold.eval_fn(ieng, helper, [arg])
-            if v not in (partial.TRUE, partial.FALSE):
-                rep.unresolved("C05-R4", f"arm:{ch}/classes", where, f"guard value for look-ahead class {cname} could not be folded")
-                return
-            res[cname] = (v == partial.TRUE) != negated
-        if ch in ("E", "A"):
-            want = {cname: cname.startswith("temp") for cname, _ in LOOKAHEAD_CLASSES}
-        else:
-            want = {cname: cname in ("brace", "whitespace") for cname, _ in LOOKAHEAD_CLASSES}
-            # whitespace may continue to `{` or not: a peek-only guard cannot tell -> it must not claim the operator reading
-            # on classes where it cannot continue (punct, paren, eof, name..)
-        bad = [c for c in res if res[c] and not want[c]] + [c for c in res if not res[c] and want[c] and c != "whitespace"]
-        rep.check(not bad, "C05-R4", f"arm:{ch}/classes", where,
-                  f"guard of `{ch}` holds exactly on the look-ahead classes where the operator reading can continue",
-                  f"guard of `{ch}` takes the operator reading on look-ahead classes {bad}: the one-character identifier `{ch}` "
-                  f"(e.g. `{ch} & a`) is rejected or an identifier is split")
-        return
-    # helper working on the iterator itself: must be `clone, skip whitespace, next is '{'`
-    s = ieng.summary(helper)
-    good = False
-    why = f"helper {helper.name} is not of the form `clone the iterator, skip whitespace, compare peek() with Some('{{')`"
-    ret = s.ret
-    if ret[0] == "bin" and ret[1] == "==":
-        sides = [ret[2], ret[3]]
-        pk = [x for x in sides if x[0] == "call" and x[1].endswith("::peek")]
-        lit = [x for x in sides if x[0] == "ctor" and str(x[1]).endswith("Some") and x[2] == (("lit", "{"),)]
-        if pk and lit:
-            recv = pk[0][2][0]
-            derives = terms.mentions_param(recv, helper.param_names()[0])
-            skipped = any(x[0] == "call" and x[1].endswith("is_whitespace") for x in subterms(recv)) or "skip_whitespaces" in pt(recv) or \
-                any(x.kind == "call" and x.is_call_to("skip_whitespaces") for x in s.all_sites()) or \
-                any(x.kind in ("call", "mcall") and (x.name == "is_whitespace" or str(x.callee).endswith("is_whitespace")) for x in s.all_sites())
-            only_next = True
-            good = derives and skipped
-            if not skipped:
-                why = "the helper does not skip whitespace before testing for `{` (`3 {x}:` would not be a quantifier)"
-    own_mut = [x for x in ieng.summary(helper).sites if x.kind == "mcall" and x.name == "next" and x.argnodes and
-               x.argnodes[0].get("k") == "path" and x.argnodes[0].get("name") == helper.param_names()[0]]
-    if own_mut:
-        good, why = False, "the look-ahead helper consumes characters of the real iterator"
-    rep.check(good != negated if good else False, "C05-R4", f"arm:{ch}/classes", where,
-              f"guard of `{ch}`: quantifier reading iff the next non-whitespace character is `{{`", why)
+    if tk is not None:
+        rep.functions.add(tk.qual)
+    TR.check_plain_mode(prog, rep, "C05-R3")
+    rep.floor("C05-R3", 13)
+    TR.check_lookahead(prog, rep, "C05-R4")
+    rep.floor("C05-R4", 5)
+    TR.check_whitespace(prog, rep, "C05-R5")
+    rep.floor("C05-R5", 5)
 
 
 def parser_constants(prog):
